@@ -174,4 +174,15 @@ CHECKS = {
   'note': TB,
   'technique': 'Coq emission-discipline theorem (enc = compact text of tokens) with extracted-model correspondence + generated type/value differential against encoding/json',
  },
+ 'C13': {
+  'text': ("Proof (Coq): the part all variants share -- the compact interpreter writes exactly the compact text of the token sequence a value denotes, the same text "
+           "at top level and in any position inside a buffer, and permuting an object's members permutes the member texts and nothing else. Observed for values of the C01 "
+           "type grammar: MarshalIndent(v,p,i) = encoding/json.Indent(Marshal(v),p,i) for 7 prefix/indent pairs incl. multi-byte and empty, Encoder.SetIndent, "
+           "Colorize with the empty scheme = Marshal, with a scheme of unique markers = Marshal once the markers are removed (compact and indent), UnorderedMap = same "
+           "document up to member order and same length, DisableHTMLEscape = Marshal with the three HTML escapes spelled out, Encoder.Encode / MarshalNoEscape / "
+           "MarshalContext / Debug = Marshal, and Marshal(&v), [v] and {i:v} contain Marshal(v) wherever encoding/json itself does not distinguish the positions. "
+           "Partial: the indenting and colouring interpreters are compared, not modelled (an indent-emission theorem is the next step)."),
+  'note': TB,
+  'technique': 'Coq emission theorems for the compact interpreter + cross-variant differential harness over the generated type grammar',
+ },
 }
